@@ -307,6 +307,30 @@ pub fn dispatch(f: &[&str]) -> String {
                 Err(_) => "panic".into(),
             }
         }
+        "cmd.json" => {
+            // SMTP command values that came through a deserializer: f[1] = mail | rcpt, f[2] = JSON text.  "err" or "ok <hex of Display>"
+            let Some(js) = utf8(unhex(f[2])) else { return "invalid-utf8".into() };
+            use lettre::transport::smtp::commands::{Mail, Rcpt};
+            let r = std::panic::catch_unwind(|| match f[1] {
+                "mail" => serde_json::from_str::<Mail>(&js).map(|c| c.to_string()).map_err(|_| ()),
+                _ => serde_json::from_str::<Rcpt>(&js).map(|c| c.to_string()).map_err(|_| ()),
+            });
+            match r { Ok(Ok(t)) => format!("ok\t{}", hex(t.as_bytes())), Ok(Err(())) => "err".into(), Err(_) => "panic".into() }
+        }
+        "surface.default" => {
+            // which of the value types with a validated content can be made out of nothing (T: Default)?  An Envelope that
+            // implements Default has an empty recipient list, an Address would be an empty string.
+            use std::marker::PhantomData;
+            struct Probe<T>(PhantomData<T>);
+            trait NoDefault { fn made(&self) -> Option<String> { None } }
+            impl<T> NoDefault for Probe<T> {}
+            impl<T: Default + std::fmt::Debug> Probe<T> { fn made(&self) -> Option<String> { Some(format!("{:?}", T::default())) } }
+            let show = |n: &str, v: Option<String>| format!("{}={}", n, v.map(|x| hex(x.as_bytes())).unwrap_or_else(|| "-".into()));
+            [show("Envelope", Probe::<lettre::address::Envelope>(PhantomData).made()),
+             show("Address", Probe::<lettre::Address>(PhantomData).made()),
+             show("Mailbox", Probe::<lettre::message::Mailbox>(PhantomData).made()),
+             show("Message", Probe::<lettre::Message>(PhantomData).made())].join("\t")
+        }
         "envelope.headers" => {
             // Envelope::try_from(&Headers) and the message builder with To / Cc / Bcc each absent (-), an empty list (0) or k mailboxes:
             // "ok <n>" / "err", twice (headers path, builder path)
@@ -420,6 +444,7 @@ pub fn dispatch(f: &[&str]) -> String {
             format!("{}\t{}", all.len(), distinct.len())
         }
         "mime.message" => crate::mime::message(f[1]),
+        "mime.ctype_multi" => crate::mime::ctype_multi(f[1]),
         "body.new" => {
             use lettre::message::Body;
             let raw = unhex(f[2]);
